@@ -39,6 +39,7 @@ class ArrLib:
 
 
 ARRLIB = ArrLib()
+OP_FILTER = None        # optional predicate on operation names (set before the pool forks)
 _installed = False
 
 
@@ -138,6 +139,8 @@ def shard(args):
         v = make_array(system, mom, "1", shape)
         objs = [element_obj(system, mom, "1", i) for i in range(n_el)]
         for name, op in (ops_unary() if "unary" in parts else ()):
+            if OP_FILTER is not None and not OP_FILTER(name):
+                continue
             tag = name + sid
             try:
                 with np.errstate(all="ignore"):
@@ -220,6 +223,8 @@ def shard(args):
                 single = element_obj(s2, mom2, "3", 0)
                 pid = f"{sid}x[{','.join(s2)}|{'mom' if mom2 else 'gen'}]"
                 for name, op in _binary_ops(d, d2):
+                    if OP_FILTER is not None and not OP_FILTER(name):
+                        continue
                     for kind, other, others in (("array", w, wobjs), ("object", single, [single] * n_el)):
                         tag = f"{name}/{kind}{pid}"
                         try:
